@@ -4,11 +4,31 @@ import sys, os; sys.path.insert(0, os.path.join(os.path.dirname(os.path.abspath(
 from harness import main
 from walkcheck import run_walks
 W = {'open': 5, 'close': 3, 'closeall': 1, 'login': 4, 'logout': 3, 'create': 7, 'destroy': 3, 'find': 4, 'copy': 2, 'setattr': 1}
+def bulk_hook(w, job, part):
+    """many handles: numeric uniqueness and liveness far beyond the handful of sessions/objects a random walk keeps"""
+    rnd = w.rnd
+    for rounds in range(3):
+        for _ in range(job['steps']): w.op_open(rnd.randrange(2), rnd.random() < 0.7)
+        w.mon_state(dead_sample=20)
+        se = w.pick_sess(ti=0) or w.pick_sess()
+        if se is not None:
+            t = w.m.toks[se.ti]
+            if t.login is None: w.op_login(se, 1, True)
+        for _ in range(job['steps'] * 2): w.op_create(w.pick_sess())
+        w.mon_handles(dead_sample=40)
+        for x in rnd.sample([x for x in w.m.sess.values() if x.alive], k=max(1, len(w.m.live_sessions()) // 2)): w.op_close(x)
+        w.mon_state(dead_sample=40); w.mon_handles(dead_sample=80)
+        if rounds == 1: w.op_closeall(0)
+        if any(f.prop in ('C11', 'MODEL') for f in w.findings): return
+    w.op_closeall(0); w.op_closeall(1); w.mon_state(dead_sample=60); w.mon_handles(dead_sample=200)
+
 def run(ctx):
     ctx.rule = ('model-guided random histories (2 tokens, <=5 sessions; open/close/close-all/login/logout/create/copy/find/destroy); after EVERY call every '
                 'live handle and a sample of dead ones are probed (sessions: C_GetSessionInfo, objects: C_GetAttributeValue(CKA_LABEL)=unique tag); '
                 'one evaluation = one probe or step; distinct = (handle kind, object kind, expected liveness) classes and session cases actually probed')
     n = ctx.q(600, 6000); steps = ctx.q(50, 60)
     run_walks(ctx, {'C11'}, n, steps, weights=W, backends=ctx.q(('file',), ('file', 'db')))
+    run_walks(ctx, {'C11'}, ctx.q(8, 32), ctx.q(120, 300), weights=W, backends=('file',), hook=bulk_hook, max_sessions=100000)
+    ctx.extra['bulk_scenarios'] = 'additionally 8 (quick) / 32 (thorough) bulk histories with 360-900 sessions and 720-1800 objects each: numeric uniqueness of every handle, liveness after partial close / close-all'
     ctx.assumptions += ['probing uses a session of the same token; cross-token use of a handle is outside the property', 'dead handles beyond a random sample of 10 (objects) / 4 (sessions) per step are not re-probed at that step']
 if __name__ == '__main__': main('C11', run, min_evaluations=1000, min_distinct=8)
